@@ -4,6 +4,9 @@ Trees are written in prefix form, space separated:
   C <tag> <num> <den> | V <tag> <char> | U <tag> <op> <child> | B <tag> <op> <left> <right>
 -/
 import Mathy.Model.Rules
+import Mathy.Model.Parser
+import Mathy.Model.Print
+import Mathy.Model.ParserObj
 namespace Mathy
 
 def Bop.name : Bop → String
@@ -100,5 +103,49 @@ def envOfWire (toks : List String) : Env := fun c =>
         | _ => none
       else none
     | _ => none).getD 0
+
+/-! text is sent as comma separated code points (`-` for the empty string) -/
+
+def textOfWire (s : String) : Option (List Char) :=
+  if s == "-" then some []
+  else (s.splitOn ",").mapM fun n => n.toNat?.map Char.ofNat
+
+def textToWire (cs : List Char) : String :=
+  if cs.isEmpty then "-" else ",".intercalate (cs.map fun c => toString c.toNat)
+
+def TT.name : TT → String
+  | .constant => "Constant" | .variable => "Variable" | .plus => "Plus" | .minus => "Minus"
+  | .multiply => "Multiply" | .divide => "Divide" | .exponent => "Exponent"
+  | .factorial => "Factorial" | .openParen => "OpenParen" | .closeParen => "CloseParen"
+  | .function => "Function" | .equal => "Equal" | .pad => "Pad" | .eof => "EOF" | .invalid => "Invalid"
+
+def Tok.toWire (t : Tok) : String := s!"{t.type.name}:{textToWire t.value}"
+
+def PErr.name : PErr → String
+  | .invalidExpression => "InvalidExpression" | .outOfTokens => "OutOfTokens"
+  | .invalidSyntax => "InvalidSyntax" | .unexpectedBehavior => "UnexpectedBehavior"
+  | .trailingTokens => "TrailingTokens" | .badNumber => "ValueError:number" | .fuel => "MODEL-FUEL"
+
+def ParseOut.toWire : ParseOut → String
+  | .tree e => s!"ok {e.toWire}"
+  | .perr e => s!"perr {e.name}"
+  | .badChar c => s!"badchar {c.toNat}"
+
+/-- history ops: `p:<text>` `t:<text>` `c` `x:<i>:<n>` -/
+def POp.ofWire (s : String) : Option POp :=
+  match s.splitOn ":" with
+  | ["p", t] => (textOfWire t).map .parse
+  | ["t", t] => (textOfWire t).map .tokenize
+  | ["c"] => some .clear
+  | ["x", i, n] => match i.toNat?, n.toNat? with
+    | some i, some n => some (.consume i n)
+    | _, _ => none
+  | _ => none
+
+def POut.toWire : POut → String
+  | .parsed o => o.toWire
+  | .tokens ts => " ".intercalate ("toks" :: ts.map Tok.toWire)
+  | .badChar c => s!"badchar {c.toNat}"
+  | .unit => "unit"
 
 end Mathy
